@@ -14,7 +14,14 @@
    The geometric tests are abstract: [inside i j] = Path1InsidePath2(or_i->pts, or_j->pts),
    [bcontains j i] = or_j->bounds.Contains(or_i->bounds), [bempty i] = or_i->bounds.IsEmpty().
    CheckBounds(x) is modelled for a state in which it has already been evaluated for every OutRec
-   (harness/cx_owner forces that): it is [has_pts x]. *)
+   (harness/cx_owner forces that): it is [has_pts x].
+
+   RecursiveCheckOwners exists in two shapes, selected by two flags, so that the model mirrors the code both before and
+   after the repair triage/C04-owner-search.patch (the check establishes which shape the tree under test has by exact
+   comparison on every dumped state; every theorem is proved for all four flag settings):
+     own_first  = the search starts with `found = outrec->splits && CheckSplitOwner(outrec, outrec->splits)`
+     mark_owner = the loop body starts with `outrec->owner->recursive_split = outrec`
+   Both false = the code of the snapshot. *)
 From Coq Require Import List Bool Arith Lia.
 Import ListNotations.
 
@@ -189,6 +196,8 @@ Section Search.
   Variable bcontains : nat -> nat -> bool.     (* or_a->bounds.Contains(or_b->bounds) *)
   Variable bempty : nat -> bool.               (* or_i->bounds.IsEmpty() *)
   Variable is_open : nat -> bool.
+  Variable own_first : bool.                   (* see the header: shape of RecursiveCheckOwners *)
+  Variable mark_owner : bool.
 
   Definition check_bounds (m : omap) (x : nat) : bool := pts_of m x.
 
@@ -237,7 +246,8 @@ Section Search.
       match owner_of m i with
       | None => Some m
       | Some o =>
-        match check_split_owner fuel m i (splits_of m o) with
+        let m0 := if mark_owner then set_rsplit m o (Some i) else m in
+        match check_split_owner fuel m0 i (splits_of m0 o) with
         | None => None
         | Some (m1, true) => Some m1
         | Some (m1, false) =>
@@ -246,6 +256,16 @@ Section Search.
         end
       end
     end.
+
+  (* the owner search of RecursiveCheckOwners: (own splits first,) then the while loop *)
+  Definition find_owner (fuel : nat) (m : omap) (i : nat) : option omap :=
+    if own_first then
+      match check_split_owner fuel m i (splits_of m i) with
+      | None => None
+      | Some (m1, true) => Some m1
+      | Some (m1, false) => climb fuel m1 i
+      end
+    else climb fuel m i.
 
   (* tree under construction: (OutRec idx, parent OutRec idx or None for the root), in AddChild order *)
   Definition tree := list (nat * option nat).
@@ -258,7 +278,7 @@ Section Search.
     | S f =>
       if placed t i || bempty i then Some (Some (m, t))
       else
-        match climb fuel m i with
+        match find_owner fuel m i with
         | None => None
         | Some m1 =>
           match owner_of m1 i with
